@@ -14,6 +14,7 @@ import (
 
 	"verif/internal/core"
 	"verif/internal/lang"
+	"verif/internal/mon"
 )
 
 // ---------------------------------------------------------------- C15
@@ -527,6 +528,52 @@ func c16Source(r *rand.Rand) (src []byte, kind string) {
 	return src, "generated"
 }
 
+// two distinct types with the same printed name (declared locally in two functions)
+func c16LocalA() any {
+	type cfg struct {
+		Name string
+		A    int `bcl:"x"`
+		B    int `bcl:"y"`
+	}
+	return &cfg{}
+}
+
+func c16LocalB() any {
+	type cfg struct {
+		Name string
+		A    int `bcl:"y"`
+		B    int `bcl:"x"`
+	}
+	return &cfg{}
+}
+
+var c16Order = 0 // set from VERIF_C16_ORDER in fresh processes: the order of independent calls must not matter
+var c16Runs int64
+
+// c16FileDigest: the file variants under a scripted reader with a read error
+// behind a lexical failure, with seeded perturbation that differs from run to run.
+func c16FileDigest(src []byte) string {
+	c16Runs++
+	data := append([]byte("print 1 @\n"), src...)
+	var b strings.Builder
+	for variant := 0; variant < 2; variant++ {
+		steps := []mon.Step{{N: 12 + variant*30}, {N: 40, Err: mon.ErrInjected}}
+		if variant == 1 {
+			data = src
+			steps = []mon.Step{{N: 1 + len(src)/3}, {N: 1 + len(src)/3, Err: mon.ErrInjected}}
+		}
+		sc := mon.NewScript("c16.bcl", data, steps)
+		lg := &mon.LockedWriter{}
+		pt := mon.NewPerturb(c16Runs*7919+int64(variant), int(c16Runs))
+		remove := pt.Install()
+		_, err := bcl.ParseFile(sc, bcl.OptLogger(lg), bcl.OptOutput(&mon.LockedWriter{}))
+		mon.WaitQuiescent(14)
+		remove()
+		fmt.Fprintf(&b, "file%d.err=%v|", variant, err)
+	}
+	return b.String()
+}
+
 func c16Digest(src []byte) string {
 	var b strings.Builder
 	var lg, out bytes.Buffer
@@ -548,12 +595,30 @@ func c16Digest(src []byte) string {
 	fmt.Fprintf(&b, "unmarshal=%+v|%v|%s|", t, uerr, pan)
 	var ts []c16Target
 	pan, _ = protect(func() { uerr = bcl.Unmarshal(src, &ts, bcl.OptLogger(&lg), bcl.OptOutput(&out)) })
-	fmt.Fprintf(&b, "unmarshal-slice=%+v|%v|%s", ts, uerr, pan)
+	fmt.Fprintf(&b, "unmarshal-slice=%+v|%v|%s|", ts, uerr, pan)
+	// two independent calls with same-named types, in either order
+	cfgSrc := []byte("def cfg \"n\" { x = 1; y = 2 }\nbind cfg -> struct")
+	res := map[int]string{}
+	for k := 0; k < 2; k++ {
+		which := (k + c16Order) % 2
+		t := c16LocalA()
+		if which == 1 {
+			t = c16LocalB()
+		}
+		var e error
+		pan, _ = protect(func() { e = bcl.Unmarshal(cfgSrc, t, bcl.OptLogger(&lg), bcl.OptOutput(&out)) })
+		res[which] = fmt.Sprintf("%+v|%v|%s", reflect.ValueOf(t).Elem().Interface(), e, pan)
+	}
+	fmt.Fprintf(&b, "same-named-types=%s;%s|", res[0], res[1])
+	b.WriteString(c16FileDigest(src))
 	return b.String()
 }
 
 // C16Digests prints one digest hash per case (used by the fresh-process runs).
 func C16Digests(seed, from, to int64) {
+	if os.Getenv("VERIF_C16_ORDER") == "1" {
+		c16Order = 1
+	}
 	for i := from; i < to; i++ {
 		r := rand.New(rand.NewSource(core.Mix(seed, i)))
 		src, _ := c16Source(r)
@@ -591,6 +656,9 @@ func init() {
 				for _, procs := range []string{"1", "2", "16"} {
 					cmd := exec.Command(exe, "c16digest", fmt.Sprint(c.Seed), fmt.Sprint(from), fmt.Sprint(to))
 					cmd.Env = append(os.Environ(), "GOMAXPROCS="+procs)
+					if procs == "2" {
+						cmd.Env = append(cmd.Env, "VERIF_C16_ORDER=1") // independent calls in the other order
+					}
 					outb, err := cmd.Output()
 					if err != nil {
 						c.Inconclusive("fresh process failed: " + err.Error())
